@@ -60,7 +60,10 @@ struct C13 : Prop {
 		{ J se = cfg::normal_session(0, 0); se.set("kind", "warm"); ss.push(se); }
 		for (int i = 0; i < nm; i++) {
 			J se = cfg::normal_session(i + 1, r.chance(600) ? 0 : (int) r.range(1, 40));
-			J st = se["start"]; J st2 = J::obj(); for (auto &kv : st.o) if (kv.first != "expect") st2.set(kv.first, kv.second); se.set("start", st2);
+			J st = se["start"]; J st2 = J::obj(); for (auto &kv : st.o) if (kv.first != "expect") st2.set(kv.first, kv.second);
+			// one mutated start in six goes through bidib_start_serial against the simulated serial device (one in four of those: the device cannot be opened)
+			if (r.chance(170)) { st2.set("mode", "serial"); if (r.chance(250)) st2.set("openable", false); }
+			se.set("start", st2);
 			se.set("kind", "mutated");
 			// the bus does not know that the host is restarting: boards log in and report while the start (and, for a rejected configuration,
 			// the shutdown that follows it) is going on
